@@ -64,7 +64,7 @@ def _step(state: "_ScriptMixin", out: OutputCollector, producer: bool) -> None:
     act = script[min(state.pos, len(script) - 1)]
     i = state.pos
     state.pos += 1
-    for k in range(state.logs):
+    for k in range(max(0, min(state.logs, 8))):
         out.client_log(Level.INFO, f"steplog-{state.tag}-{i}-{k}")
     if act == "e":
         out.emit_pydict({"tag": [state.tag], "i": [i]})
@@ -142,7 +142,7 @@ class FaultServiceImpl:
 
     def unary(self, tag: int, mode: str, logs: int, ctx: CallContext | None = None) -> int:
         if ctx is not None:
-            for k in range(logs):
+            for k in range(max(0, min(logs, 8))):
                 ctx.client_log(Level.INFO, f"ulog-{tag}-{k}")
         if mode == "raise":
             raise ValueError(f"boom-{tag}")
@@ -152,7 +152,7 @@ class FaultServiceImpl:
 
     def _init(self, kind: str, tag: int, init: str, ilogs: int, script: str, logs: int, ctx: CallContext | None):  # type: ignore[no-untyped-def]
         if ctx is not None:
-            for k in range(ilogs):
+            for k in range(max(0, min(ilogs, 8))):
                 ctx.client_log(Level.INFO, f"ilog-{tag}-{k}")
         if init == "raise":
             raise ValueError(f"initboom-{tag}")
